@@ -592,7 +592,14 @@ type CarrierJob = Box<dyn FnOnce() + Send + 'static>;
 /// simply never returned)
 static CARRIERS: StdMutex<Vec<std::sync::mpsc::Sender<CarrierJob>>> = StdMutex::new(Vec::new());
 
+/// no carrier reuse: every virtual thread runs on an OS thread of its own, which ends with it
+pub static FRESH_THREADS: AtomicBool = AtomicBool::new(false);
+
 fn run_on_carrier(job: CarrierJob) {
+    if FRESH_THREADS.load(Ordering::SeqCst) {
+        std::thread::Builder::new().stack_size(STACK_SIZE.load(Ordering::Relaxed) as usize).spawn(job).expect("OS thread creation");
+        return;
+    }
     let idle = CARRIERS.lock().unwrap().pop();
     let job = match idle {
         Some(tx) => match tx.send(job) {
